@@ -101,14 +101,17 @@ theorem boolVarsGo_tight (D : Doc) (R : Nat) (X : Name → Bool) :
               | false => rfl
               | true => exact absurd (Rch.here (List.mem_cons_self)) (hav nm hx)
             have hex : (seen.contains f.name || X f.name) = false := by
-              rw [hfn]; simp only [Bool.not_eq_true] at hseen; simp [hseen, hXnm]
+              have hs' : seen.contains nm = false := by simpa using hseen
+              rw [hfn, hs', hXnm]; rfl
             have hpool := pool_exclude (g := bodyW) (excl := fun m => seen.contains m || X m)
               (excl' := fun m => (seen ++ [nm]).contains m || X m) (f := f) hex
               (by
                 intro m
-                simp only [List.contains_eq_mem, List.mem_append, List.mem_singleton, hfn, Bool.decide_or,
-                  Bool.or_assoc, decide_eq_true_eq]
-                cases hm : decide (m ∈ seen) <;> cases hxm : X m <;> simp [eq_comm]) hfD
+                have h1 : (seen ++ [nm]).contains m = (seen.contains m || m == nm) := by
+                  simp only [List.contains_eq_mem, List.mem_append, List.mem_singleton, Bool.decide_or]
+                  congr 1
+                simp only [h1, hfn]
+                cases seen.contains m <;> cases X m <;> cases (m == nm) <;> rfl) hfD
             refine boolVarsGo_tight D (R' + 1) X n (f.sel ++ rest) (seen ++ [nm]) _ ?_ ?_ ?_
             · intro s' hs'
               rcases List.mem_append.1 hs' with h | h
@@ -119,7 +122,7 @@ theorem boolVarsGo_tight (D : Doc) (R : Nat) (X : Name → Bool) :
               · exact hav nm' hx (.spread List.mem_cons_self hF h)
               · exact havrest nm' hx h
             · rw [wL_append]
-              unfold bodyW at hpool
+              have hb : bodyW f = wL f.sel := rfl
               omega
     | inline cond ds ss p =>
       simp only [wS] at hn
